@@ -471,8 +471,9 @@ class Ellipse:
         first_isophote = isophote_list[0]
         sma, step = first_isophote.sample.geometry.reset_sma(step)
 
-        # now, go from initial sma inwards towards center.
-        while True:
+        # now, go from initial sma inwards towards center (unless the
+        # first inward sma is already at or below the minimum sma).
+        while sma > max(minsma, 0.5):
             isophote = self.fit_isophote(sma, step, conver, minit, maxit,
                                          fflag, maxgerr, sclip, nclip,
                                          integrmode, linear, maxrit,
